@@ -18,10 +18,24 @@ type Case struct {
 	Kind    string   `json:"kind,omitempty"`   // generator stream / cell
 	Text    []string `json:"text"`             // human-readable ops + observations
 	Coq     string   `json:"coq"`              // Coq term: (input, observed)
-	Oracle  string   `json:"oracle"`           // "" = property held on impl; otherwise what failed
-	Sig     string   `json:"sig,omitempty"`    // signature of the failure (for known findings)
+	Oracle  string   `json:"oracle"`           // "" = property held on impl; otherwise what failed (first failure)
+	Sig     string   `json:"sig,omitempty"`    // signature of the first failure (for known findings)
+	Fails   []Fail   `json:"fails,omitempty"`  // every failure found in this case (first one = Oracle/Sig)
 	Cells   []string `json:"cells,omitempty"`  // coverage cells hit (op/outcome classes)
 	Trivial bool     `json:"trivial,omitempty"`
+}
+
+// Fail is one property failure observed on the implementation.
+type Fail struct {
+	What string `json:"what"`
+	Sig  string `json:"sig"`
+}
+
+func (c *Case) fail(what, sig string) {
+	if c.Oracle == "" {
+		c.Oracle, c.Sig = what, sig
+	}
+	c.Fails = append(c.Fails, Fail{what, sig})
 }
 
 var out *bufio.Writer
